@@ -38,7 +38,9 @@ Inductive ev :=
 | EPunchMsg (n : Z) (on fopen : bool) (s : chunk)
 | EPunchVal (n : Z) (on fopen : bool) (name : string) (v : cell) (text : chunk)   (* fpunchf: text = snprintf(format, v) *)
 | EEndRow (n : Z) (pending : list string)    (* fpunchf_end_row; pending = user-punch headings not yet punched *)
-| ENewTable (n : Z).                         (* do_run creates the table/string of a user number first seen *)
+| ENewTable (n : Z)                          (* do_run creates the table/string of a user number first seen *)
+| EPunchOpen (n : Z) (opened : bool).        (* punch_open(n): opened = the file switch of n is on, so a fresh
+                                                std::ofstream(name, out) replaces the stream: the file is truncated *)
 
 Record sinks := mkSinks {
   out_s : list chunk; out_f : list chunk;
@@ -122,6 +124,8 @@ Definition route (sw : switches) (k : sinks) (e : ev) : sinks :=
       | Some t => set_sel k (sel_s k) (sel_f k) (update n (fun _ => end_row_pending t pending) (tables k))
       | None => k
       end
+  | EPunchOpen n opened =>
+      if opened then set_sel k (sel_s k) (update n (fun _ => []) (sel_f k)) (tables k) else k
   | ENewTable n =>
       match lookup n (tables k) with
       | Some _ => k
@@ -141,3 +145,4 @@ End Routing.
 
 Arguments EOut {chunk}. Arguments ELog {chunk}. Arguments EErr {chunk}. Arguments EWarn {chunk}.
 Arguments EPunchMsg {chunk}. Arguments EPunchVal {chunk}. Arguments EEndRow {chunk}. Arguments ENewTable {chunk}.
+Arguments EPunchOpen {chunk}.
